@@ -88,6 +88,10 @@ HARNESSES = [
        scenarios=SL2_QUICK + [slots((1, 0), (2, 2))], cbmc=['--unwind', '8', '--object-bits', '12'], timeout=3600,
        desc='2 threads, 3-slot arena with 2 reserved slots (one worker slot)', bounds={'threads': 2, 'slots': 3, 'reserved': 2, 'free_rounds': 2, 'forced_rounds': 2}),
 ]
+MANIFEST = dict(
+  level_text='Bounded symbolic execution / bounded model checking of the real arena and worker-budget code. (1) Worker budget: one real operation (threading_control_impl::adjust_demand or set_active_num_workers through the thread_request_serializer proxy, market::adjust_demand, arena::update_request and market::update_allotment) from an arbitrary reachable market state of 3 arenas over <=3 priority levels with symbolic demands <=7 (15 thorough) and any soft limit: allotments sum to min(total demand, limit) (exactly one mandatory worker at limit 0, to an arena with enqueued work), none exceeds its demand, higher priority is saturated first, split is proportional, and the number of threads requested from RML equals min(total, effective limit) for every int-valued total/limit/delta (inductive step over the serializer invariant). (2) Slots: for 2-3 threads entering and leaving one arena (workers via try_join/occupy_free_slot<true>/on_thread_leaving, externals via occupy_free_slot<false>) every interleaving within the round bound: slot indices pairwise distinct and below num_slots, workers never in reserved slots, my_limit covers occupied slots, reference word restored. (3) Isolation: arena_slot::get_task and steal_task on pools of 3 entries with symbolic 64-bit isolation tags only return tasks of the waiter\'s isolation scope and leave every skipped task in place.',
+  level_note='Bounds per harness in evidence. Callers that contain the dispatch loop (arena::process, task_arena_impl::execute) are cut: thread bodies replay their call sequence around the slot window; arenas are white-box storage with the constructor\'s scalar fields (real allocate_arena too heavy). Outside the claim: isolation filtering of the affinity mailbox and the critical task stream (queries did not come under control), the dispatch loop, global_control, observer entry/exit pairing, the end-to-end L-1 worker count, concurrent aggregation in thread_request_serializer::update, more than 3 arenas/threads/slots, non-SC memory. Trusted: clang-14 IR, tools/ir2c.py (selftest differential on the sequential units), cbmc.',
+)
 OUTSIDE = [
   'isolation filtering of the affinity mailbox (mail_outbox::internal_pop / get_mailbox_task) and of the critical task stream (task_stream::pop_specific): harness code exists (h_iso.c SRC 2/3) but the queries did not come under control (atomic pointers pass through integer casts in the IR; no verdict in 250 s even for 1-2 entries)',
   'the dispatch loop itself (local_wait_for_all / receive_or_steal_task): that a waiter passes its own isolation tag to these functions is read from the source, not checked',
